@@ -105,6 +105,9 @@ void harness(void) {
     for (int i = 0; i < n; i++) v[i] = sym[P->sym[i]];
   #endif
     for (int i = 0; i < n; i++) symx_assume(v[i] <= VMASK);
+  #if VDEC == 1 || VDEC == 2
+    for (int i = 0; i < n; i++) symx_assume(v[i] <= 0x7FFF);       /* levels are int16_t: larger values are not levels */
+  #endif
     carquet_buffer_t buf; carquet_buffer_init(&buf);
   #if VDEC == 1 || VDEC == 2
     _Alignas(16) int16_t lv[NMAX];
